@@ -146,3 +146,36 @@ func HarnessStorability() {
 		}
 	}
 }
+
+// HarnessRange416Retry: a Range GET that the origin answers 416 is retried without Range;
+// whether the retried 200 is stored must follow from ITS directives.
+func HarnessRange416Retry() {
+	e := newEnv(symChoice(2), 1<<30)
+	ccs := []string{"", "max-age=60", "no-store", "private", "no-cache", "max-age=0"}
+	ci := symChoice(len(ccs))
+	h := hdr()
+	if ccs[ci] != "" {
+		h["Cache-Control"] = []string{ccs[ci]}
+	}
+	forbids := ci >= 2
+	h416 := hdr()
+	if symChoice(2) == 1 {
+		h416["Cache-Control"] = []string{"max-age=60"} // the 416's own directives are irrelevant for the 200
+	}
+	e.o.script = []originResp{{status: 416, header: h416, body: []byte("range-error")}, {status: 200, header: h, body: []byte("r1")},
+		{status: 200, header: h, body: []byte("r2")}, {status: 200, header: h, body: []byte("r3")}}
+	vClockFreeze(true)
+	c1 := e.plain(newReq("GET", "o.test", "/q", "", hdr("Range", "bytes=5-9")))
+	vAssert(c1.answered, "c16.request-unanswered")
+	vReach("range-416-retried")
+	after := len(e.o.seen)
+	c2 := e.plain(newReq("GET", "o.test", "/q", "", nil))
+	vAssert(c2.answered && c2.status == 200, "c08.status-not-relayed")
+	contacted := len(e.o.seen) > after
+	if forbids {
+		vReach("forbidden")
+		vAssert(contacted, "c04.unstorable-response-reused")
+	} else {
+		vReach("storable")
+	}
+}
